@@ -161,6 +161,11 @@ def run(ctx):
     crosscheck(ctx, "C10.R4", INF + ".SectionType.addkey", RI, "addkey",
                INF + ".SectionType", "delegates to _add_child")
 
+    crosscheck(ctx, "C10.R4", INF + ".SchemaType.deriveSectionType", RI,
+               "deriveSectionType", INF + ".SchemaType",
+               "inherited names and attributes enter the derived type's "
+               "uniqueness tables")
+
     # ------------------------------------------------------------------ R5
     crosscheck(ctx, "C10.R5", INF + ".BaseKeyInfo.adddefault", RI,
                "adddefault", INF + ".BaseKeyInfo", "keyed iff wildcard")
